@@ -73,6 +73,8 @@ type rRound struct {
 	// the first Dangle bytes of a server message and ends there. What the library makes of the fragment is not
 	// judged (the response is over with its final DONE); the NEXT response must be delimited like any other.
 	Dangle int `json:"dangle,omitempty"`
+	// ManyEED: the response carries more than 64 server messages in a row (marks the plan for the probes).
+	ManyEED bool `json:"many_eed,omitempty"`
 }
 
 // roundBody is what the server sends for the round.
@@ -384,6 +386,19 @@ func genRoundsPlan(r *Rand, eedPct, envPct int, hooks bool) *roundsPlan {
 		if plain {
 			p.Knobs.GenSlow(r, 60, 50*time.Millisecond)
 		}
+	}
+	if hooks && r.Pct(4) {
+		// (drawn last, so that the rest of the plan is what it was) one response carries a long run of server
+		// messages - a procedure printing in a loop - in front of its first package
+		ri := r.Intn(len(p.Rounds))
+		rd := &p.Rounds[ri]
+		var many []rItem
+		for j, n := 0, 66+r.Intn(40); j < n; j++ {
+			// (numbered below the round's own items: the oracles order messages by their numbers)
+			many = append(many, rItem{K: "eed", Status: j % 2, N: (ri+1)*1000 - 200 + j})
+		}
+		rd.Items = append(many, rd.Items...)
+		rd.ManyEED = true
 	}
 	return p
 }
@@ -1021,6 +1036,9 @@ func (c03) Run(plan interface{}, schedSeed uint64, replay []simrt.Choice, lenien
 		if rd.Slow {
 			v.Probe("slow-response")
 		}
+		if rd.ManyEED {
+			v.Probe("more-than-64-messages-in-a-response")
+		}
 		if rd.Dangle > 0 && ri < len(p.Rounds)-1 {
 			v.Probe("response-after-a-dangling-fragment")
 			if !visibleAny(p.Rounds[ri+1].Items) {
@@ -1361,6 +1379,14 @@ func (c11) Run(plan interface{}, schedSeed uint64, replay []simrt.Choice, lenien
 	if len(conc) > 0 {
 		v.Probe("concurrent-hook-registration")
 	}
+	for _, rd := range p.Rounds {
+		if rd.ManyEED {
+			v.Probe("more-than-64-messages-in-a-response")
+			if rd.Mode == "until-err" || rd.Mode == "until-eof" {
+				v.Probe("more-than-64-messages-in-a-response:callback-fails")
+			}
+		}
+	}
 	v.Sample = roundsSample(p)
 	return v, out
 }
@@ -1370,5 +1396,5 @@ func (c03) RequiredProbes() []string {
 	return []string{"mode:manual", "mode:until-true", "mode:until-eof", "mode:until-err", "mode:until-nil", "mode:mixed", "end:final-done", "end:done-with-bits", "end:no-done", "end:nothing-visible", "response-after-a-dangling-fragment"}
 }
 func (c11) RequiredProbes() []string {
-	return []string{"eed-hook-calls", "env-hook-calls", "concurrent-hook-registration"}
+	return []string{"eed-hook-calls", "env-hook-calls", "concurrent-hook-registration", "more-than-64-messages-in-a-response"}
 }
